@@ -27,3 +27,10 @@ func verifCmp3s(a, b, c any) (ab, ba, bc, ac, aa Ordering) {
 func verifToFloat(n Num) float64 {
 	return ConvertToFloat64(n)
 }
+
+// verifCmpList: the list branch of cmpInner with an arbitrary element comparison
+// (property C09: lists are compared element by element with the SAME comparison
+// that was asked for - Cmp for compare, CmpTotal for compare &total).
+func verifCmpList(a, b List, recurse func(a, b any) Ordering) Ordering {
+	return cmpInner(a, b, recurse)
+}
